@@ -53,6 +53,9 @@ def gen_session(rng, backend, cross=False):
     nseg = rng.choice([1, 2, 2, 2, 3])
     use_free = rng.random() < 0.3
     allow_newdel = backend != "bosonic" and rng.random() < 0.3
+    # 25% of the sessions contain measurements without `select` (random outcomes, recorded and replayed into the
+    # model); their final states are not compared across patterns, everything else is
+    randomised = rng.random() < 0.25
     active = [True] * n
     segs = []
     ever_measured = []
@@ -107,10 +110,12 @@ def gen_session(rng, backend, cross=False):
                 avail = [m for m in measured if m not in regs]
                 if avail and pars and cls not in ("Kgate", "CKgate", "Vgate") and rng.random() < 0.5:
                     op["pars"][0] = dict(m=rng.choice(avail), k=rng.choice([1, 2, 0.5, -1]))
-            if cls == "MeasureHomodyne":
+            if cls == "MeasureHomodyne" and not (randomised and rng.random() < 0.5):
                 op["select"] = rng.choice([0.0, 0.5, -0.25, 0.125])
-            if cls == "MeasureFock":
-                op["select"] = [0 for _ in regs]
+            if cls == "MeasureFock" and not (randomised and rng.random() < 0.7):
+                op["select"] = [rng.choice([0, 1, 2]) for _ in regs]
+                for r, kk in zip(regs, op["select"]):      # make the selected outcome certain
+                    seg.append(dict(cls="Fock", regs=[r], pars=[kk]))
             if kind == "meas":
                 for r in regs:
                     if r not in measured:
@@ -122,6 +127,12 @@ def gen_session(rng, backend, cross=False):
     spec = dict(backend=backend, n=n, opts=OPTS[backend], segs=segs, args={"a": 0.25} if use_free else {})
     need = er.needs_succ(spec)
     spec["succ"] = [need[j] or (j > 0 and rng.random() < 0.5) for j in range(nseg)]
+    if any(need) and rng.random() < 0.35:
+        j = rng.choice([i for i, x in enumerate(need) if x])
+        ok = all(r < n for op in segs[j] for r in op.get("regs", [])) and not any(op["cls"] in ("New", "Del") for op in segs[j])
+        if ok and all(not any(o["cls"] in ("New", "Del") for o in sg) for sg in segs[j + 1:]):
+            spec["succ"][j] = False          # cannot follow: the engine must refuse it in every pattern
+            spec["mismatch"] = True
     return spec
 
 
@@ -307,6 +318,8 @@ def one_session(ctx, sf, spec, reqs, pending, kinds=("list", "seq", "cat", "rese
     rp = dict(kind="session", spec=spec)
     ctx.count(f"session:{backend}:{k}seg", spec, nontrivial(spec), sample=spec)
     for pat in kinds:
+        if pat == "cat" and spec.get("mismatch"):
+            continue
         if pat == "cat":
             progs = [er.build_concat(sf, spec)]
             script = [dict(run=[0])]
@@ -333,9 +346,29 @@ def one_session(ctx, sf, spec, reqs, pending, kinds=("list", "seq", "cat", "rese
         elif ctx.proof_ok and modelled(spec):
             reqs.append(model_request(spec, script, real["outcomes"], concat=(pat == "cat")))
             pending.append((dict(case, pattern=pat), real))
+    # ---- (C) a measurement with `select` leaves exactly the selected value in its RegRef (concatenated program)
+    if "cat" in results and results["cat"]["err"] is None:
+        last = {}
+        for op in [o for sg in spec["segs"] for o in sg]:
+            if er.kind_of(op["cls"]) == "meas":
+                sel = op.get("select")
+                sel = sel if isinstance(sel, (list, tuple)) else [sel] * len(op["regs"])
+                for r, v in zip(op["regs"], sel):
+                    last[r] = v
+            elif op["cls"] == "Del":
+                for r in op["regs"]:
+                    last.pop(r, None)
+        vals = results["cat"]["vals"][0]
+        for r, v in last.items():
+            ctx.oracle_cases += 1
+            if v is not None and (vals[r] is None or len(vals[r]) != 1 or abs(vals[r][0] - v) > 1e-9):
+                ctx.fail("selected-value-not-stored", f"{backend}: mode {r} was measured with select={v} but its RegRef holds {vals[r]}", rp)
     # ---- (C) the three patterns (+ reset, re-run) end in the same state
     if unmeasured_read(spec):
         ctx.tally("oracle:ill-formed (reads an unmeasured value)")
+        return
+    if any(er.kind_of(o["cls"]) == "meas" and o.get("select") is None for s_ in spec["segs"] for o in s_):
+        ctx.tally("oracle:random outcomes (states not compared)")
         return
     ne = sum(1 for s in spec["segs"] if s)
     cross = cross_deps(spec)
@@ -368,6 +401,10 @@ def one_session(ctx, sf, spec, reqs, pending, kinds=("list", "seq", "cat", "rese
         if not d < STATE_TOL:
             ctx.fail(sig_for(ref, pat), f"{backend}: final state of pattern '{pat}' differs from '{ref}' by {d:.3g}", rp)
     # list vs seq must agree on every back end, whatever the defects above
+    if "list" in results and "seq" in results and results["list"]["err"] != results["seq"]["err"] and not shared:
+        ctx.fail(f"compositional:list-vs-seq:{backend}", f"{backend}: run([p..]) " +
+                 (f"raises {results['list']['err']}" if results["list"]["err"] else "succeeds") + " but successive runs " +
+                 (f"raise {results['seq']['err']}" if results["seq"]["err"] else "succeed"), rp)
     if "list" in results and "seq" in results and results["list"]["err"] is None and results["seq"]["err"] is None:
         d = er.state_dist(results["list"]["state"], results["seq"]["state"])
         if not d < STATE_TOL:
